@@ -1179,6 +1179,9 @@ func (w *_structAssembler) AssembleValue() datamodel.NodeAssembler {
 	if len(ftyp.Index) > 1 {
 		return _errorAssembler{fmt.Errorf("bindnode TODO: embedded fields")}
 	}
+	if w.doneFields[ftyp.Index[0]] {
+		return _errorAssembler{datamodel.ErrRepeatedMapKey{Key: basicnode.NewString(name)}}
+	}
 	w.doneFields[ftyp.Index[0]] = true
 	fval := w.val.FieldByIndex(ftyp.Index)
 	if field.IsOptional() {
